@@ -28,13 +28,21 @@ pub fn key_name(k: &RecordKey) -> String {
 
 /// a record with a real, decodable header; `variant` varies the payload
 pub fn chunk_record(k: &RecordKey, variant: u8) -> Record {
-    let chunk = Chunk::new(Bytes::from(vec![variant, 0x11, 0x22, variant]));
+    // odd variants are longer than even ones, so an overwrite may shrink or grow the file
+    let mut content = vec![variant, 0x11, 0x22, variant];
+    if variant % 2 == 1 {
+        content.extend_from_slice(&[0x55, 0x66, 0x77]);
+    }
+    let chunk = Chunk::new(Bytes::from(content));
     let bytes = try_serialize_record(&chunk, RecordKind::Chunk).expect("serialise").to_vec();
     Record { key: k.clone(), value: bytes, publisher: None, expires: None }
 }
 /// a record whose header says Register (non-chunk kinds are indexed by content hash)
 pub fn nonchunk_record(k: &RecordKey, variant: u8) -> Record {
-    let payload: Vec<u8> = vec![variant, 0x33, 0x44, variant, variant];
+    let mut payload: Vec<u8> = vec![variant, 0x33, 0x44, variant, variant];
+    if variant % 2 == 1 {
+        payload.extend_from_slice(&[0x88, 0x99, 0xaa, 0xbb]);
+    }
     let bytes = try_serialize_record(&payload, RecordKind::Register).expect("serialise").to_vec();
     Record { key: k.clone(), value: bytes, publisher: None, expires: None }
 }
